@@ -179,10 +179,20 @@ def _scan_abort(tree):
     guard = bool(body) and _is_closed_guard(body[0])
     if guard:
         body = body[1:]
-    if not body or not (isinstance(body[0], ast.Expr) and isinstance(body[0].value, ast.Call)
-                        and _call_name(body[0].value) == "self._file.close"):
+
+    def is_file_close(st):
+        return isinstance(st, ast.Expr) and isinstance(st.value, ast.Call) and _call_name(st.value) == "self._file.close"
+    # shape A:  self._file.close(); <unlink block>
+    # shape B:  try: self._file.close()  finally: <unlink block>      (the unlink runs even if the close raises)
+    close_in_try = False
+    if body and is_file_close(body[0]):
+        body = body[1:]
+    elif len(body) == 1 and isinstance(body[0], ast.Try) and len(body[0].body) == 1 and is_file_close(body[0].body[0]) \
+            and not body[0].handlers and not body[0].orelse and body[0].finalbody:
+        close_in_try = True
+        body = body[0].finalbody
+    else:
         raise T.TranslateError("abort(): does not start by closing the file object")
-    body = body[1:]
     removes = False
     for n in ast.walk(fn):
         if isinstance(n, ast.Call) and _call_name(n) in ("os.remove", "os.unlink"):
@@ -204,7 +214,7 @@ def _scan_abort(tree):
         # without the unlink the only thing abort() may do is mark the handle closed
         if not all(_is_set_closed(s) for s in body):
             raise T.TranslateError("abort(): body not understood")
-    return {"guard": guard, "removes": removes}
+    return {"guard": guard, "removes": removes, "close_in_try": close_in_try}
 
 
 def _scan_init(tree):
@@ -320,6 +330,9 @@ def markClosedOnReplace : Bool := {_lb(p["close"]["mark"])}
 def guardAbort : Bool := {_lb(p["abort"]["guard"])}
 /-- abort(): `try: os.remove(self._lockfilename); self._closed = True  except FileNotFoundError: self._closed = True` -/
 def abortRemoves : Bool := {_lb(p["abort"]["removes"])}
+/-- abort(): `try: self._file.close()  finally: <the unlink block>` — the unlink runs even when closing the file
+object raises (its implicit flush fails again when a write error persists) -/
+def abortCloseInTry : Bool := {_lb(p["abort"]["close_in_try"])}
 /-- `__exit__`: abort() when an exception is in flight, close() otherwise -/
 def exitAbortsOnException : Bool := {_lb(p["exit_del"]["exit_aborts_on_exc"])}
 def exitClosesNormally : Bool := {_lb(p["exit_del"]["exit_closes_normally"])}
@@ -362,7 +375,22 @@ class _YFile:
         return self._ip.handler(who, "flush", (self._rel,), lambda: self._real.flush())
 
     def close(self):
-        return self._real.close()
+        """Closing the file object is a yield / fault point ("fclose") while it is still open: its implicit flush is
+        where a persistent write error surfaces a second time.  CPython closes the descriptor even when close()
+        raises, and closing a closed file object is a no-op that cannot fail."""
+        if self._real.closed:
+            return None
+        who = self._ip.actor()
+        if who is None:
+            return self._real.close()
+        try:
+            return self._ip.handler(who, "fclose", (self._rel,), lambda: self._real.close())
+        except BaseException:
+            try:
+                self._real.close()
+            except Exception:
+                pass
+            raise
 
     def __iter__(self):
         return iter(self._real)
@@ -417,7 +445,7 @@ FAULTS = {
 FAULT_KINDS = ["enospc", "eperm", "kbint"]
 SCHED_CALLS = {"open-x", "open-w", "fsync", "stat", "chmod", "replace", "remove"}
 OPEN_CALLS = ("open-x", "open-w")   # open-w: the lock file opened without O_EXCL (only a mutated program does that)
-LOCK_CALLS = {"open-x", "write", "flush", "fsync", "stat", "chmod", "replace", "remove"}
+LOCK_CALLS = {"open-x", "write", "flush", "fsync", "fclose", "stat", "chmod", "replace", "remove"}
 
 
 # ------------------------------------------------------------------------------------------------
